@@ -150,6 +150,8 @@ def run(res: Results, idx: Index, tier: str) -> None:
     rule_k(res, idx, specs)
     rule_l(res, idx, specs)
     rule_m(res, idx, specs)
+    from .c19_modules import run_module_fields
+    run_module_fields(res, idx, specs)
     if not getattr(res, "_nested_xref", False):
         # a memo that forgets a parameter ignores that argument on every later call (C14 R-C14g)
         from . import c14
